@@ -309,78 +309,63 @@ func init() {
 			}
 			r.Analysed = 1
 			found := false
+			isReflogInsert := func(c ssa.CallInstruction) bool {
+				if _, _, ok := isSQLCall(c); !ok {
+					return false
+				}
+				q, ok := queryText(c)
+				if !ok {
+					return false
+				}
+				ws := sqlWords(q)
+				return len(ws) >= 3 && ws[0] == "INSERT" && ws[2] == "REFLOGS"
+			}
 			for cl := range txClosures(swl, runInTx) {
 				tx := cl.Params[0]
-				eachCall(cl, func(c ssa.CallInstruction) {
-					kind, _, ok := isSQLCall(c)
-					if !ok {
-						return
-					}
-					q, ok := queryText(c)
-					if !ok {
-						return
-					}
-					ws := sqlWords(q)
-					if len(ws) < 3 || ws[0] != "INSERT" || ws[2] != "REFLOGS" {
-						return
-					}
+				for _, e := range effSitesPred(cl, isReflogInsert, inlineDepth) {
+					c := e.inner
+					kind, _, _ := isSQLCall(c)
+					q, _ := queryText(c)
 					found = true
-					key := callKey(cl, c)
+					key := effKey(cl, e)
 					what := "oldoid bound into the reflog INSERT comes from a Scan on the same transaction"
 					argIdx, perr := placeholderIndexOfColumn(q, "oldoid")
 					if perr != nil {
 						r.bad(key, p.Rel(c.Pos()), what, "cannot locate the oldoid placeholder: "+perr.Error())
-						return
+						continue
 					}
-					if kind != "Tx" || stripConv(c.Common().Args[0]) != tx {
+					if kind != "Tx" || resolveSub(c.Common().Args[0], e.sub) != ssa.Value(tx) {
 						r.bad(key, p.Rel(c.Pos()), what, "the INSERT is not issued on the transaction handle")
-						return
+						continue
 					}
 					vals := variadicElems(c)
 					if argIdx >= len(vals) {
 						r.bad(key, p.Rel(c.Pos()), what, fmt.Sprintf("placeholder #%d has no bound argument", argIdx))
-						return
+						continue
 					}
-					v := stripConv(vals[argIdx])
-					// v must be a load of a local whose address was passed to Scan on a row from tx.QueryRow
-					okScan := false
-					if u, isLoad := v.(*ssa.UnOp); isLoad && u.Op == token.MUL {
-						if al, isAlloc := u.X.(*ssa.Alloc); isAlloc {
-							okScan = scannedFromTx(cl, al, tx)
-						}
-					}
-					if okScan {
-						// the Scan must happen on every path to the INSERT, and nothing of the caller's
-						// Reflog may be stored into the variable
-						var scans = map[ssa.Instruction]bool{}
-						eachCall(cl, func(sc ssa.CallInstruction) {
-							if f := calleeFunc(sc); f != nil && f.Name() == "Scan" && f.Pkg() != nil && f.Pkg().Path() == "database/sql" {
-								scans[sc] = true
-							}
-						})
-						if path, reach := reachAfter(cl, nil, c, nil, scans); reach {
-							r.bad(key, p.Rel(c.Pos()), what, fmtPath("the INSERT is reachable without reading the old value in this transaction", path))
-							return
-						}
-						if u, isLoad := v.(*ssa.UnOp); isLoad {
-							if al, isAlloc := u.X.(*ssa.Alloc); isAlloc {
-								for _, ref := range *al.Referrers() {
-									if st, isSt := ref.(*ssa.Store); isSt && st.Addr == al {
-										for x := range backward(st.Val, nil) {
-											if par, isPar := x.(*ssa.FreeVar); isPar && strings.Contains(par.Type().String(), "Reflog") {
-												r.bad(key, p.Rel(st.Pos()), what, "a value taken from the caller-supplied Reflog is stored into the variable bound to oldoid")
-												return
-											}
-										}
-									}
-								}
+					v := resolveSub(vals[argIdx], e.sub)
+					// the function the value lives in, and that function's name for the transaction
+					owner := v.Parent()
+					var txv ssa.Value
+					if owner == cl {
+						txv = tx
+					} else if owner != nil {
+						for _, prm := range owner.Params {
+							if resolveSub(prm, e.sub) == ssa.Value(tx) {
+								txv = prm
 							}
 						}
+					}
+					if owner == nil || txv == nil {
+						r.bad(key, p.Rel(c.Pos()), what, "the bound value is not a variable filled by row.Scan on a tx.QueryRow result")
+						continue
+					}
+					if ok, why := scanFilled(owner, v, txv, inlineDepth); ok {
 						r.ok(key, p.Rel(c.Pos()), what)
 					} else {
-						r.bad(key, p.Rel(c.Pos()), what, "the bound value is not a variable filled by row.Scan on a tx.QueryRow result")
+						r.bad(key, p.Rel(c.Pos()), what, why)
 					}
-				})
+				}
 			}
 			if !found {
 				return &AnchorError{"INSERT INTO reflogs inside SetWithLog's RunInTx closure"}
@@ -414,15 +399,16 @@ func init() {
 				}
 				cls := txClosures(fn, runInTx)
 				touchesRefs, touchesLogs := false, false
+				isWrite := func(c ssa.CallInstruction) bool {
+					if _, _, ok := isSQLCall(c); !ok {
+						return false
+					}
+					q, ok := queryText(c)
+					return ok && sqlWrites(q)
+				}
 				for cl := range cls {
-					eachCall(cl, func(c ssa.CallInstruction) {
-						if _, _, ok := isSQLCall(c); !ok {
-							return
-						}
-						q, ok := queryText(c)
-						if !ok || !sqlWrites(q) {
-							return
-						}
+					for _, e := range effSitesPred(cl, isWrite, inlineDepth) {
+						q, _ := queryText(e.inner)
 						ws := sqlWords(q)
 						tbl := ""
 						for i, w := range ws {
@@ -437,7 +423,7 @@ func init() {
 						if tbl == "REFLOGS" {
 							touchesLogs = true
 						}
-					})
+					}
 				}
 				key := funcName(fn) + "|refs+reflogs"
 				what := "ref row and its log rows change in the same transaction"
@@ -592,6 +578,106 @@ func splitTop(s string) []string {
 
 // scannedFromTx: &al is passed to a Scan call on a *sql.Row(s) obtained from a
 // Query/QueryRow on tx.
+// scanFilled: v, a value of fn, holds what a Scan on a query of the transaction txv
+// read: a local passed by address to row.Scan (on every path to the read, and never
+// overwritten from the caller's Reflog), or the result of a helper of the package
+// that is handed the transaction and returns such a value.
+func scanFilled(fn *ssa.Function, v ssa.Value, txv ssa.Value, depth int) (bool, string) {
+	v = stripConv(v)
+	notScan := "the bound value is not a variable filled by row.Scan on a tx.QueryRow result"
+	switch x := v.(type) {
+	case *ssa.UnOp:
+		if x.Op != token.MUL {
+			return false, notScan
+		}
+		al, ok := x.X.(*ssa.Alloc)
+		if !ok || !scannedFromTx(fn, al, txv) {
+			return false, notScan
+		}
+		scans := map[ssa.Instruction]bool{}
+		eachCall(fn, func(sc ssa.CallInstruction) {
+			if f := calleeFunc(sc); f != nil && f.Name() == "Scan" && f.Pkg() != nil && f.Pkg().Path() == "database/sql" {
+				scans[sc] = true
+			}
+		})
+		if path, reach := reachAfter(fn, nil, x, nil, scans); reach {
+			return false, fmtPath("the INSERT is reachable without reading the old value in this transaction", path)
+		}
+		for _, ref := range *al.Referrers() {
+			if st, isSt := ref.(*ssa.Store); isSt && st.Addr == ssa.Value(al) {
+				for y := range backward(st.Val, nil) {
+					switch y.(type) {
+					case *ssa.FreeVar, *ssa.Parameter:
+						if strings.Contains(y.Type().String(), "Reflog") {
+							return false, "a value taken from the caller-supplied Reflog is stored into the variable bound to oldoid"
+						}
+					}
+				}
+			}
+		}
+		return true, ""
+	case *ssa.Phi:
+		n := 0
+		for _, e := range x.Edges {
+			if c, ok := stripConv(e).(*ssa.Const); ok && c.IsNil() {
+				continue
+			}
+			if ok, why := scanFilled(fn, e, txv, depth); !ok {
+				return false, why
+			}
+			n++
+		}
+		return n > 0, notScan
+	case *ssa.Extract:
+		call, ok := x.Tuple.(*ssa.Call)
+		if !ok {
+			return false, notScan
+		}
+		return scanFilledResult(fn, call, x.Index, txv, depth)
+	case *ssa.Call:
+		return scanFilledResult(fn, x, 0, txv, depth)
+	}
+	return false, notScan
+}
+
+func scanFilledResult(fn *ssa.Function, call *ssa.Call, idx int, txv ssa.Value, depth int) (bool, string) {
+	notScan := "the bound value is not a variable filled by row.Scan on a tx.QueryRow result"
+	h := call.Call.StaticCallee()
+	if depth <= 0 || h == nil || len(h.Blocks) == 0 || fnPkgPath(h) != fnPkgPath(fn) {
+		return false, notScan
+	}
+	var htx ssa.Value
+	for i, a := range call.Call.Args {
+		if stripConv(a) == txv && i < len(h.Params) {
+			htx = h.Params[i]
+		}
+	}
+	if htx == nil {
+		return false, "the helper that reads the old value is not given the transaction handle"
+	}
+	n := 0
+	for _, b := range h.Blocks {
+		if len(b.Instrs) == 0 {
+			continue
+		}
+		ret, ok := b.Instrs[len(b.Instrs)-1].(*ssa.Return)
+		if !ok || idx >= len(ret.Results) {
+			continue
+		}
+		if c, ok := stripConv(ret.Results[idx]).(*ssa.Const); ok && c.IsNil() {
+			continue
+		}
+		if ok, why := scanFilled(h, ret.Results[idx], htx, depth-1); !ok {
+			return false, why
+		}
+		n++
+	}
+	if n == 0 {
+		return false, notScan
+	}
+	return true, ""
+}
+
 func scannedFromTx(fn *ssa.Function, al *ssa.Alloc, tx ssa.Value) bool {
 	ok := false
 	eachCall(fn, func(c ssa.CallInstruction) {
